@@ -34,7 +34,7 @@ def parseRole (j : Json) : Except String (Str × List Person) := do
 
 def parseEntry (j : Json) : Except String Entry := do
   let ty ← getStr j "orig_type"
-  pure { key := ← getStr j "key", type := lower ty, origType := ty,
+  pure { key := ← getStr j "key", type := lowerU ty, origType := ty,
          fields := ← (← getArr j "fields").mapM parseField,
          persons := ← (← getArr j "persons").mapM parseRole }
 
@@ -61,7 +61,7 @@ def errName : WErr → String
 /-- `bibwrite`: the text of the BibTeX writer -/
 def bibwrite (j : Json) : Except String Json := do
   let d ← parseDb (← j.getObjVal? "db")
-  let spec := obj [("wf_bibtex", Json.bool (BibWrite.WFDb d))]
+  let spec := obj [("wf_bibtex", Json.bool (BibWrite.WFDb d)), ("q_bibtex", Json.bool (BibWrite.WFDbQ .bibtex d))]
   match writeStream encodeLatex d with
   | .error e => pure (obj [("out", obj [("error", Json.str (errName e))]), ("spec", spec)])
   | .ok t => pure (obj [("out", obj [("text", strToJson t)]), ("spec", spec)])
@@ -92,11 +92,17 @@ def readResJ (r : ReadRes) : Json :=
 def lowerdb (j : Json) : Except String Json := do
   let d ← parseDb (← j.getObjVal? "db")
   let r := dbLower d
-  let distinct (l : List Str) : Bool := (l.map lower).eraseDups.length == l.length
+  let distinct (l : List Str) : Bool := (l.map lowerU).eraseDups.length == l.length
   let ci := distinct (d.entries.map (·.key)) &&
     d.entries.all fun e => distinct (e.fields.map (·.1)) && distinct (e.persons.map (·.1))
-  pure (obj [("out", obj [("db", dbJ r.1), ("repeated", strs r.2)]),
+  -- `eval(repr(db))` over the constructor calls the two `__repr__` print
+  let reprJ : Json := match dbEval (dbRepr d) with
+    | .error e => obj [("error", Json.str (errName e))]
+    | .ok (d', _) => dbJ d'
+  pure (obj [("out", obj [("db", dbJ r.1), ("repeated", strs r.2), ("repr", reprJ)]),
              ("spec", obj [("lowered", dbJ (BibWrite.lowerSpec d)), ("ci_distinct", Json.bool ci),
+                           ("lower_domain", Json.bool (d.entries.all fun e => lowerDomain e.key && lowerDomain e.origType &&
+                              e.fields.all (fun f => lowerDomain f.1) && e.persons.all (fun r => lowerDomain r.1))),
                            ("persons_wf", Json.bool (d.entries.all fun e => e.persons.all fun r => r.2.all BibWrite.WFPerson))])])
 
 def parseFmt (j : Json) : Except String Fmt := do
@@ -133,6 +139,9 @@ def convertOp (j : Json) : Except String Json := do
   let spec := obj [("wf_bibtex", Json.bool (BibWrite.WFDb d)),
                    ("wf_yaml", Json.bool (BibWrite.WFDbTree true d)),
                    ("wf_xml", Json.bool (BibWrite.WFDbTree false d)),
+                   ("q_bibtex", Json.bool (BibWrite.WFDbQ .bibtex d)),
+                   ("q_yaml", Json.bool (BibWrite.WFDbQ .yaml d)),
+                   ("q_xml", Json.bool (BibWrite.WFDbQ .bibtexml d)),
                    ("lowered", dbJ (BibWrite.lowerSpec d))]
   match chainD preserve true fs d [] with
   | .error e => pure (obj [("out", obj [("error", Json.str (errName e))]), ("spec", spec)])
